@@ -201,6 +201,32 @@ func runResp(focus string) func(s *simrt.Sim) {
 			}
 			return true
 		}
+		if faults && focus == "C38" && tp.Chance(1, 4, "graceful_shutdown") {
+			// the server process starts a graceful shutdown (reload, exit) while responses are under
+			// way: it announces GOAWAY(NO_ERROR) and must still finish the streams it has accepted
+			after := tp.Draw(6, "graceful_shutdown.after_frames")
+			simrt.GoNamed("operator.shutdown", nil, func() {
+				// (only once the server has answered on every stream: a stream it has not seen
+				// before the GOAWAY is legitimately ignored and would be retried elsewhere)
+				simrt.WaitUntil(func() bool {
+					if e.readerDone {
+						return true
+					}
+					n := 0
+					for _, id := range ids {
+						if len(e.framesOf(id)) == 0 {
+							return false
+						}
+						n += len(e.framesOf(id))
+					}
+					return n >= len(ids)+after
+				})
+				if !e.readerDone {
+					e.s.Fault("graceful_shutdown")
+					close(e.closeNotifyCh)
+				}
+			})
+		}
 		if faults && tp.Chance(1, 3, "client_reset") {
 			// the client cancels one stream in mid-response
 			victim := e.handlers[ids[tp.Draw(len(ids), "client_reset.which")]]
